@@ -29,6 +29,13 @@ RULE = ("lists of 1..8 features, start-ordered inside each seqid block, consecut
         "randomly stranded under the transcript in about a third of the GFF3 transcripts) and GTF, a quarter of the "
         "transcripts with a long exon that strictly contains later exons, grouped by grandparent or parent type; every "
         "create_splice_sites case is also cross-checked against the introns create_introns yields on the same database; "
+        "databases of 2..4 transcripts with DIFFERENT strands drawn from {+,-,.,?} (under one gene or one gene each, over the "
+        "same or different coordinates) in every file order, so that sites of a '.' / '?' transcript are produced after a '+' "
+        "one, after a '-' one and first in the same call (the order actually taken is read off the yielded features); "
+        "databases that already hold derived features: db.update(list(create_x())) (optionally the other kind too), reopen, "
+        "call create_x again -> same yield as the first call and as the model, content dump and SQL trace unchanged; "
+        "update_attributes with 1..3 single-valued entries chosen from the keys the neighbours carry (override), keys they do "
+        "not carry (addition) and a one-valued ID, merge_attributes on / off, objects and databases; "
         "non-trivial = at least one gap and at least one suppressed pair (touching / overlapping / seqid change) in the "
         "list or in one transcript; distinct = distinct (records, options) tuples")
 REQUIRED = ["interfeatures calls", "gap features compared", "suppressed pairs: touching", "suppressed pairs: overlapping",
@@ -47,9 +54,34 @@ REQUIRED = ["interfeatures calls", "gap features compared", "suppressed pairs: t
             "introns compared whose strand differs from the transcript's strand",
             "introns compared: both neighbours strictly nested inside an earlier exon",
             "splice sites compared: both neighbours strictly nested inside an earlier exon",
-            "splice sites cross-checked against the ends of the introns create_introns yields"]
+            "splice sites cross-checked against the ends of the introns create_introns yields",
+            "create_splice_sites calls on a database whose transcripts (with introns) have different strands",
+            "create_introns calls on a database whose transcripts (with introns) have different strands",
+            "splice sites of a '.' transcript yielded directly after those of a '+' transcript",
+            "splice sites of a '.' transcript yielded directly after those of a '-' transcript",
+            "splice sites of a '?' transcript yielded directly after those of a '+' transcript",
+            "splice sites of a '?' transcript yielded directly after those of a '-' transcript",
+            "splice sites of a +/- transcript yielded directly after those of a transcript that is neither",
+            "splice sites: the first yielded feature belongs to a transcript that is neither '+' nor '-' (others follow)",
+            "splice sites of '?'-strand transcripts compared",
+            "derived features stored by update() before the second call",
+            "databases holding derived features reopened",
+            "second calls on a database holding derived features: yield compared with the first call and the model",
+            "database dumps compared around a call on a database holding its own derived features",
+            "database dumps compared around a call on a database holding both kinds of derived features",
+            "update_attributes: single-valued key overriding a key both neighbours carry",
+            "update_attributes: single-valued key overriding a key one neighbour carries",
+            "update_attributes: single-valued key added that neither neighbour carries",
+            "update_attributes: single-valued ID replacing the joined ID of the neighbours",
+            "update_attributes: single-valued key overriding a key both neighbours carry (features read from a database)",
+            "update_attributes: single-valued key added that neither neighbour carries (features read from a database)"]
 REQUIRED_CLASSES = ["list/objects", "list/db gff3", "list/db gtf", "introns/gff3", "introns/gtf", "splice/gff3", "splice/gtf",
-                    "list/objects equal attributes", "list/db gff3 equal attributes", "list/db gtf equal attributes"]
+                    "list/objects equal attributes", "list/db gff3 equal attributes", "list/db gtf equal attributes",
+                    "list/objects update_attributes", "list/db update_attributes",
+                    "splice/gff3 transcripts of different strands", "splice/gtf transcripts of different strands",
+                    "introns/gff3 transcripts of different strands", "introns/gtf transcripts of different strands",
+                    "introns/gff3 on a database holding derived features", "introns/gtf on a database holding derived features",
+                    "splice/gff3 on a database holding derived features", "splice/gtf on a database holding derived features"]
 ASSUMPTIONS = [
     "'at least one base between them' = next.start - previous.end >= 2; lists are start-ordered inside a block of one seqid "
     "(the statement speaks of features given in order), exon starts are distinct inside a transcript",
@@ -60,6 +92,11 @@ ASSUMPTIONS = [
     "score, frame, source, bin and key order of the yielded features are not part of the statement and not compared; "
     "the order of the features yielded by create_introns / create_splice_sites is not compared (multiset)",
     "GTF: all exons/CDS of a transcript share seqid and strand, and the inferred transcript has that strand (C03's domain)",
+    "a transcript whose strand is neither '+' nor '-' ('.' or '?') gets the label 'splice_site' on both sides, whatever "
+    "transcripts were visited before it in the same call",
+    "derived features are stored with update(..., merge_strategy='create_unique') (GTF: gene / transcript inference off); "
+    "update() itself is not judged here: a case in which it raises or stores another number of features is skipped and counted; "
+    "stored derived features are of a type other than the exon featuretype, so the statement's gaps do not depend on them",
 ]
 QUICK_SHARDS = 4
 THOROUGH_SHARDS = 16
@@ -198,6 +235,8 @@ def execute(ctx, case):
     try:
         if kind == "list":
             return execute_list(ctx, case)
+        if kind == "derived":
+            return execute_derived(ctx, case)
         return execute_model(ctx, case)
     finally:
         for v in contracts.drain():
@@ -282,6 +321,7 @@ def execute_list(ctx, case):
                 return info
             count_attr_evidence(ctx, g, model_in, opts)
             count_pair_evidence(ctx, g, real_attrs, opts, from_db=source != "objects")
+            count_update_evidence(ctx, g, real_attrs, opts, from_db=source != "objects")
         bad = w.finish()
         if bad:
             ctx.violation(case, dict(bad[1], why="interfeatures: " + bad[0]))
@@ -337,6 +377,36 @@ def count_pair_evidence(ctx, g, attrs, opts, from_db=False):
                 ctx.mon("numeric IDs in disagreeing numeric / text order joined: numeric_sort %s" % ("on" if opts["numeric_sort"] else "off"))
 
 
+def count_update_evidence(ctx, g, attrs, opts, from_db=False):
+    """Which kinds of update_attributes entries the compared gap exercised (attrs[i] = real attributes of neighbour i)."""
+    upd = opts.get("update_attributes")
+    if not upd:
+        return
+    a, b = attrs[g["pair"][0]], attrs[g["pair"][1]]
+    how = "" if g.get("attrs") is not None else " (merge_attributes off)"
+    for k, v in upd.items():
+        if len(v) != 1:
+            continue
+        if k == "ID":
+            ids = set(a.get("ID", [])) | set(b.get("ID", []))
+            if len(ids) > 1:
+                ctx.mon("update_attributes: single-valued ID replacing the joined ID of the neighbours" + how)
+            elif not ids:
+                ctx.mon("update_attributes: single-valued ID given to a gap between neighbours without ID" + how)
+            continue
+        n = (k in a) + (k in b)
+        if n == 2:
+            ctx.mon("update_attributes: single-valued key overriding a key both neighbours carry" + how)
+            if from_db:
+                ctx.mon("update_attributes: single-valued key overriding a key both neighbours carry (features read from a database)" + how)
+        elif n == 1:
+            ctx.mon("update_attributes: single-valued key overriding a key one neighbour carries" + how)
+        else:
+            ctx.mon("update_attributes: single-valued key added that neither neighbour carries" + how)
+            if from_db:
+                ctx.mon("update_attributes: single-valued key added that neither neighbour carries (features read from a database)" + how)
+
+
 def short(f):
     d = geometry(f)
     d["attrs"] = attrs_of(f)
@@ -383,6 +453,128 @@ def canon(d, with_attrs):
     return json.dumps(key, ensure_ascii=True)
 
 
+def model_expectations(ctx, recs, fmt, opts, call):
+    """(transcripts, expected features, expected introns of the same transcripts, info) from the records alone."""
+    info = {"gaps": 0, "suppressed": 0, "nontrivial": False}
+    txs = transcripts_of(recs, fmt, opts)
+    expected = []
+    expected_introns = []      # splice: the introns of the same transcripts, for the cross-check with create_introns
+    for tid, tstrand, exons in txs:
+        starts = [e["start"] for e in exons]
+        if len(set(starts)) != len(starts):
+            raise AssertionError("harness: equal exon starts generated")
+        ex_model = [to_model(e) for e in exons]
+        ordered = M.start_ordered(ex_model)
+        if call == "introns":
+            exp, sup = M.introns(ex_model, new_featuretype=opts["new_featuretype"], merge_attributes=opts["merge_attributes"],
+                                 numeric_sort=opts["numeric_sort"])
+            count_expectations(ctx, exp, sup)
+            for g in exp:
+                count_pair_evidence(ctx, g, [e["attrs"] for e in ordered], opts)
+        else:
+            exp, sup = M.splice_sites(ex_model, tstrand, numeric_sort=opts["numeric_sort"])
+            for k, n in sup.items():
+                ctx.mon("suppressed pairs: " + k, n)
+            expected_introns.extend(M.introns(ex_model, new_featuretype="intron", numeric_sort=opts["numeric_sort"])[0])
+        count_model_evidence(ctx, call, exp, ordered, tstrand)
+        expected.extend(exp)
+        info["gaps"] += len(exp) if call == "introns" else len(exp) // 2
+        info["suppressed"] += sum(sup.values())
+        if exp and sum(sup.values()):
+            info["nontrivial"] = True
+        if call == "splice" and tstrand == "-":
+            ctx.mon("splice sites of minus-strand transcripts compared", len(exp))
+        if call == "splice" and tstrand == ".":
+            ctx.mon("splice sites of unstranded transcripts compared", len(exp))
+        if call == "splice" and tstrand == "?":
+            ctx.mon("splice sites of '?'-strand transcripts compared", len(exp))
+    strands = set(t[1] for t in txs if t[2])
+    info["strands"] = sorted(strands)
+    return txs, expected, expected_introns, info
+
+
+def call_kwargs(opts):
+    kw = {"exon_featuretype": opts["exon_featuretype"], "merge_attributes": opts["merge_attributes"],
+          "numeric_sort": opts["numeric_sort"]}
+    if opts["by"] == "grandparent":
+        kw["grandparent_featuretype"] = opts["featuretype"]
+    else:
+        kw["grandparent_featuretype"] = None
+        kw["parent_featuretype"] = opts["featuretype"]
+    return kw
+
+
+def run_and_compare(ctx, case, db, call, opts, expected, expected_introns, text, step=""):
+    """One call of the real create_introns / create_splice_sites, judged against the expectations and watched for
+    changes of the database.  Returns the yielded features, or None after a violation."""
+    kw = call_kwargs(opts)
+    w = Watch(ctx, db)
+    try:
+        if call == "introns":
+            out = list(db.create_introns(new_featuretype=opts["new_featuretype"], **kw))
+            ctx.mon("create_introns calls")
+        else:
+            out = list(db.create_splice_sites(**kw))
+            ctx.mon("create_splice_sites calls")
+    except Exception as ex:
+        ctx.violation(case, {"why": "create_%s raised %s%s" % ("introns" if call == "introns" else "splice_sites", type(ex).__name__, step),
+                             "error": repr(ex), "text": text})
+        return None
+    with_attrs = call == "introns" and opts["merge_attributes"]
+    name = "create_introns" if call == "introns" else "create_splice_sites"
+    got = Counter(canon(short(f), with_attrs) for f in out)
+    want = Counter(canon(g, with_attrs) for g in expected)
+    ctx.mon("introns compared" if call == "introns" else "splice sites compared", len(expected))
+    if got != want:
+        missing = [json.loads(k) for k in (want - got)][:4]
+        extra = [json.loads(k) for k in (got - want)][:4]
+        if len(out) != len(expected):
+            why = "%s yielded %s features than the model" % (name, "more" if len(out) > len(expected) else "fewer")
+        else:
+            geo_got = Counter(canon(short(f), False) for f in out)
+            geo_want = Counter(canon(g, False) for g in expected)
+            if geo_got == geo_want:
+                why = "%s: attributes differ" % name
+            else:
+                def strip(c, idx):
+                    return Counter(json.dumps([x for i, x in enumerate(json.loads(k)) if i not in idx]) for k in c.elements())
+                if strip(geo_got, (3,)) == strip(geo_want, (3,)):
+                    why = "%s: featuretype / label differs" % name
+                elif strip(geo_got, (4,)) == strip(geo_want, (4,)):
+                    why = "%s: strand differs" % name
+                else:
+                    why = "%s: coordinates differ" % name
+        ctx.violation(case, {"why": why + step, "expected_not_yielded": missing, "yielded_not_expected": extra,
+                             "n_got": len(out), "n_expected": len(expected), "text": text})
+        return None
+    if call == "splice":
+        # "the two-base sites of each such intron": the sites must be the two ends of exactly the introns the real
+        # create_introns yields on this database under the same grouping (labels aside)
+        try:
+            real_introns = list(db.create_introns(new_featuretype="intron", **kw))
+        except Exception as ex:
+            ctx.violation(case, {"why": "create_introns raised %s%s" % (type(ex).__name__, step), "error": repr(ex), "text": text})
+            return None
+        ends_real = Counter(t for f in real_introns for t in M.site_pair(geometry(f)))
+        ends_model = Counter(t for g in expected_introns for t in M.site_pair(g))
+        sites = Counter((f.seqid, f.start, f.end, f.strand) for f in out)
+        ctx.mon("splice sites cross-checked against the ends of the introns create_introns yields", sum(sites.values()))
+        if ends_real != ends_model:
+            ctx.violation(case, {"why": "create_introns (cross-check of a splice-site case) differs from the model" + step,
+                                 "n_got": len(real_introns), "n_expected": len(expected_introns), "text": text})
+            return None
+        if sites != ends_real:
+            ctx.violation(case, {"why": "create_splice_sites: sites are not the two-base ends of the introns create_introns yields" + step,
+                                 "sites_not_intron_ends": [list(k) for k in (sites - ends_real)][:4],
+                                 "intron_ends_without_site": [list(k) for k in (ends_real - sites)][:4], "text": text})
+            return None
+    bad = w.finish()
+    if bad:
+        ctx.violation(case, dict(bad[1], why="%s: %s%s" % (name, bad[0], step), text=text))
+        return None
+    return out
+
+
 def execute_model(ctx, case):
     recs, fmt, opts, call = case["recs"], case["fmt"], case["opts"], case["kind"]
     info = {"gaps": 0, "suppressed": 0, "nontrivial": False}
@@ -393,106 +585,112 @@ def execute_model(ctx, case):
         ctx.violation(case, {"why": "harness: building the database raised %r" % (ex,), "text": text})
         return info
     try:
-        txs = transcripts_of(recs, fmt, opts)
-        expected = []
-        expected_introns = []      # splice: the introns of the same transcripts, for the cross-check with create_introns
-        for tid, tstrand, exons in txs:
-            starts = [e["start"] for e in exons]
-            if len(set(starts)) != len(starts):
-                raise AssertionError("harness: equal exon starts generated")
-            ex_model = [to_model(e) for e in exons]
-            ordered = M.start_ordered(ex_model)
-            if call == "introns":
-                exp, sup = M.introns(ex_model, new_featuretype=opts["new_featuretype"], merge_attributes=opts["merge_attributes"],
-                                     numeric_sort=opts["numeric_sort"])
-                count_expectations(ctx, exp, sup)
-                for g in exp:
-                    count_pair_evidence(ctx, g, [e["attrs"] for e in ordered], opts)
-            else:
-                exp, sup = M.splice_sites(ex_model, tstrand, numeric_sort=opts["numeric_sort"])
-                for k, n in sup.items():
-                    ctx.mon("suppressed pairs: " + k, n)
-                expected_introns.extend(M.introns(ex_model, new_featuretype="intron", numeric_sort=opts["numeric_sort"])[0])
-            count_model_evidence(ctx, call, exp, ordered, tstrand)
-            expected.extend(exp)
-            info["gaps"] += len(exp) if call == "introns" else len(exp) // 2
-            info["suppressed"] += sum(sup.values())
-            if exp and sum(sup.values()):
-                info["nontrivial"] = True
-            if call == "splice" and tstrand == "-":
-                ctx.mon("splice sites of minus-strand transcripts compared", len(exp))
-            if call == "splice" and tstrand == ".":
-                ctx.mon("splice sites of unstranded transcripts compared", len(exp))
-        kw = {"exon_featuretype": opts["exon_featuretype"], "merge_attributes": opts["merge_attributes"],
-              "numeric_sort": opts["numeric_sort"]}
-        if opts["by"] == "grandparent":
-            kw["grandparent_featuretype"] = opts["featuretype"]
-        else:
-            kw["grandparent_featuretype"] = None
-            kw["parent_featuretype"] = opts["featuretype"]
-        w = Watch(ctx, db)
-        try:
-            if call == "introns":
-                out = list(db.create_introns(new_featuretype=opts["new_featuretype"], **kw))
-                ctx.mon("create_introns calls")
-            else:
-                out = list(db.create_splice_sites(**kw))
-                ctx.mon("create_splice_sites calls")
-        except Exception as ex:
-            ctx.violation(case, {"why": "create_%s raised %s" % ("introns" if call == "introns" else "splice_sites", type(ex).__name__),
-                                 "error": repr(ex), "text": text})
+        txs, expected, expected_introns, info = model_expectations(ctx, recs, fmt, opts, call)
+        out = run_and_compare(ctx, case, db, call, opts, expected, expected_introns, text)
+        if out is not None:
+            count_visit_evidence(ctx, call, out, txs, fmt, info)
+    finally:
+        close_db(db, dbfn)
+    return info
+
+
+def neither(strand):
+    return strand not in ("+", "-")
+
+
+def count_visit_evidence(ctx, call, out, txs, fmt, info):
+    """In which order the real code visited transcripts of different strands, read off the yielded features (each carries
+    the id of its transcript in the union of its neighbours' attributes).  Evidence counters only."""
+    what = "introns" if call == "introns" else "splice sites"
+    if len(info.get("strands", ())) > 1:
+        ctx.mon("create_%s calls on a database whose transcripts (with introns) have different strands" % what.replace(" ", "_"))
+    strand_of = {tid: s for tid, s, _ in txs}
+    key = "Parent" if fmt == "gff3" else "transcript_id"
+    seq = []
+    for f in out:
+        v = attrs_of(f).get(key, [])
+        if len(v) != 1 or v[0] not in strand_of:
+            return
+        if not seq or seq[-1] != v[0]:
+            seq.append(v[0])
+    if seq and neither(strand_of[seq[0]]) and len(info.get("strands", ())) > 1:
+        ctx.mon("%s: the first yielded feature belongs to a transcript that is neither '+' nor '-' (others follow)" % what)
+    for a, b in zip(seq, seq[1:]):
+        sa, sb = strand_of[a], strand_of[b]
+        if sa in ("+", "-") and neither(sb):
+            ctx.mon("%s of a '%s' transcript yielded directly after those of a '%s' transcript" % (what, sb, sa))
+        elif neither(sa) and sb in ("+", "-"):
+            ctx.mon("%s of a +/- transcript yielded directly after those of a transcript that is neither" % what)
+        elif sa != sb and neither(sa) and neither(sb):
+            ctx.mon("%s of a '.' / '?' transcript yielded directly after those of the other kind" % what)
+
+
+# -- create_introns / create_splice_sites on a database that already holds derived features -----------------------------
+def execute_derived(ctx, case):
+    import gffutils
+
+    recs, fmt, opts, call = case["recs"], case["fmt"], case["opts"], case["call"]
+    info = {"gaps": 0, "suppressed": 0, "nontrivial": False, "stored": 0}
+    text = G.render(recs, fmt)
+    try:
+        db, dbfn = open_db(ctx, case, text, fmt)
+    except Exception as ex:
+        ctx.violation(case, {"why": "harness: building the database raised %r" % (ex,), "text": text})
+        return info
+    try:
+        txs, expected, expected_introns, info = model_expectations(ctx, recs, fmt, opts, call)
+        info["stored"] = 0
+        first = run_and_compare(ctx, case, db, call, opts, expected, expected_introns, text, step=" (first call)")
+        if first is None:
             return info
-        with_attrs = call == "introns" and opts["merge_attributes"]
-        name = "create_introns" if call == "introns" else "create_splice_sites"
-        got = Counter(canon(short(f), with_attrs) for f in out)
-        want = Counter(canon(g, with_attrs) for g in expected)
-        ctx.mon("introns compared" if call == "introns" else "splice sites compared", len(expected))
-        if got != want:
-            missing = [json.loads(k) for k in (want - got)][:4]
-            extra = [json.loads(k) for k in (got - want)][:4]
-            if len(out) != len(expected):
-                why = "%s yielded %s features than the model" % (name, "more" if len(out) > len(expected) else "fewer")
-            else:
-                geo_got = Counter(canon(short(f), False) for f in out)
-                geo_want = Counter(canon(g, False) for g in expected)
-                if geo_got == geo_want:
-                    why = "%s: attributes differ" % name
-                else:
-                    def strip(c, idx):
-                        return Counter(json.dumps([x for i, x in enumerate(json.loads(k)) if i not in idx]) for k in c.elements())
-                    if strip(geo_got, (3,)) == strip(geo_want, (3,)):
-                        why = "%s: featuretype / label differs" % name
-                    elif strip(geo_got, (4,)) == strip(geo_want, (4,)):
-                        why = "%s: strand differs" % name
-                    else:
-                        why = "%s: coordinates differ" % name
-            ctx.violation(case, {"why": why, "expected_not_yielded": missing, "yielded_not_expected": extra,
-                                 "n_got": len(out), "n_expected": len(expected), "text": text})
-            return info
-        if call == "splice":
-            # "the two-base sites of each such intron": the sites must be the two ends of exactly the introns the real
-            # create_introns yields on this database under the same grouping (labels aside)
+        store = list(first)
+        if case.get("store") == "both":
+            # the derived features of the other kind are stored as well
+            kw = call_kwargs(opts)
             try:
-                real_introns = list(db.create_introns(new_featuretype="intron", **kw))
+                if call == "introns":
+                    store += list(db.create_splice_sites(**dict(kw, merge_attributes=True)))
+                else:
+                    store += list(db.create_introns(**kw))
             except Exception as ex:
-                ctx.violation(case, {"why": "create_introns raised %s" % type(ex).__name__, "error": repr(ex), "text": text})
+                ctx.skip("derived: producing the features of the other kind raised %s (judged by its own cases)" % type(ex).__name__)
                 return info
-            ends_real = Counter(t for f in real_introns for t in M.site_pair(geometry(f)))
-            ends_model = Counter(t for g in expected_introns for t in M.site_pair(g))
-            sites = Counter((f.seqid, f.start, f.end, f.strand) for f in out)
-            ctx.mon("splice sites cross-checked against the ends of the introns create_introns yields", sum(sites.values()))
-            if ends_real != ends_model:
-                ctx.violation(case, {"why": "create_introns (cross-check of a splice-site case) differs from the model",
-                                     "n_got": len(real_introns), "n_expected": len(expected_introns), "text": text})
-                return info
-            if sites != ends_real:
-                ctx.violation(case, {"why": "create_splice_sites: sites are not the two-base ends of the introns create_introns yields",
-                                     "sites_not_intron_ends": [list(k) for k in (sites - ends_real)][:4],
-                                     "intron_ends_without_site": [list(k) for k in (ends_real - sites)][:4], "text": text})
-                return info
-        bad = w.finish()
-        if bad:
-            ctx.violation(case, dict(bad[1], why="%s: %s" % (name, bad[0]), text=text))
+        n0 = len(dbdump.dump_db(db)["features"])
+        ukw = {"merge_strategy": "create_unique"}
+        if fmt == "gtf":
+            ukw.update(disable_infer_genes=True, disable_infer_transcripts=True)
+        try:
+            db.update(store, **ukw)
+        except Exception as ex:
+            # update() is not the subject of this statement (C09 / C10 judge it)
+            ctx.skip("derived: update() with the derived features raised %s" % type(ex).__name__)
+            return info
+        sqltrace.reset()
+        if dbfn != ":memory:":
+            db.conn.close()
+            db = gffutils.FeatureDB(dbfn)
+            ctx.mon("databases holding derived features reopened")
+        stored = len(dbdump.dump_db(db)["features"]) - n0
+        info["stored"] = stored
+        if stored != len(store):
+            ctx.skip("derived: update() stored %s features than it was given (not this statement)" % ("more" if stored > len(store) else "fewer"))
+            return info
+        ctx.mon("derived features stored by update() before the second call", stored)
+        second = run_and_compare(ctx, case, db, call, opts, expected, expected_introns, text,
+                                 step=" (second call, database holding the derived features)")
+        if second is None:
+            return info
+        ctx.mon("second calls on a database holding derived features: yield compared with the first call and the model")
+        if stored:
+            ctx.mon("database dumps compared around a call on a database holding %s derived features" % ("its own" if case.get("store") != "both" else "both kinds of"))
+        with_attrs = opts["merge_attributes"]
+        a = Counter(canon(short(f), with_attrs) for f in first)
+        b = Counter(canon(short(f), with_attrs) for f in second)
+        if a != b:
+            ctx.violation(case, {"why": "create_%s on a database holding derived features yields other features than the first call"
+                                        % ("introns" if call == "introns" else "splice_sites"),
+                                 "only_first": [json.loads(k) for k in (a - b)][:4], "only_second": [json.loads(k) for k in (b - a)][:4],
+                                 "text": text})
     finally:
         close_db(db, dbfn)
     return info
@@ -524,7 +722,7 @@ def count_model_evidence(ctx, call, exp, ordered, tstrand):
 # -- workload -------------------------------------------------------------------------------------------------------------
 def run(ctx):
     rng = ctx.rng
-    for _ in range(ctx.budget(13000, 440000)):
+    for _ in range(ctx.budget(12000, 440000)):
         case = {"kind": "list", "source": "objects", "feats": G.feature_list(rng), "opts": G.list_options(rng)}
         info = execute(ctx, case)
         nt = info["gaps"] >= 1 and info["suppressed"] >= 1
@@ -567,6 +765,47 @@ def run(ctx):
                 "dbfile": rng.random() < 0.25}
         info = execute(ctx, case)
         ctx.case((call, fmt, case["recs"], case["opts"]), info["nontrivial"], cls="%s/%s" % (call, fmt))
+    # update_attributes: single-valued overrides of keys the neighbours carry, additions of keys they do not, one-valued ID
+    for _ in range(ctx.budget(1000, 40000)):
+        feats = G.feature_list(rng)
+        opts = G.list_options(rng)
+        opts["update_attributes"] = G.update_attributes_for(rng, feats)
+        opts["merge_attributes"] = rng.random() < 0.85
+        case = {"kind": "list", "source": "objects", "feats": feats, "opts": opts}
+        info = execute(ctx, case)
+        ctx.case((case["feats"], case["opts"]), info["gaps"] >= 1, sample=case if len(feats) == 2 else None,
+                 cls="list/objects update_attributes")
+    for _ in range(ctx.budget(300, 8000)):
+        fmt = rng.choice(["gff3", "gtf"])
+        feats = G.feature_list(rng, unique_ids=True)
+        if fmt == "gtf":
+            for r in feats:
+                r["attrs"] = [["gene_id", ["g"]], ["transcript_id", ["t"]]] + [kv for kv in r["attrs"]]
+        opts = G.list_options(rng)
+        opts["update_attributes"] = G.update_attributes_for(rng, feats)
+        opts["merge_attributes"] = rng.random() < 0.85
+        case = {"kind": "list", "source": fmt, "feats": feats, "opts": opts, "dbfile": rng.random() < 0.2}
+        info = execute(ctx, case)
+        ctx.case((fmt, case["feats"], case["opts"]), info["gaps"] >= 1, cls="list/db update_attributes")
+    # several transcripts of different strands ('+', '-', '.', '?') in one call, every file / visiting order
+    for _ in range(ctx.budget(400, 14000)):
+        fmt = rng.choice(["gff3", "gff3", "gtf"])
+        call = rng.choice(["splice", "splice", "introns"])
+        case = {"kind": call, "fmt": fmt, "recs": G.strand_order_model(rng, fmt), "opts": G.strand_order_options(rng, fmt, call),
+                "dbfile": rng.random() < 0.15}
+        info = execute(ctx, case)
+        ctx.case((call, fmt, case["recs"], case["opts"]), len(info.get("strands", ())) > 1 and info["gaps"] >= 2,
+                 sample=case if len(case["recs"]) <= 7 else None, cls="%s/%s transcripts of different strands" % (call, fmt))
+    # databases that already hold derived features: update(list(create_x())), reopen, call again
+    for _ in range(ctx.budget(200, 8000)):
+        fmt = rng.choice(["gff3", "gtf"])
+        call = rng.choice(["introns", "splice"])
+        recs = G.strand_order_model(rng, fmt) if rng.random() < 0.3 else G.gene_model(rng, fmt)
+        case = {"kind": "derived", "call": call, "fmt": fmt, "recs": recs, "opts": G.strand_order_options(rng, fmt, call),
+                "dbfile": rng.random() < 0.7, "store": "both" if rng.random() < 0.3 else "same"}
+        info = execute(ctx, case)
+        ctx.case((call, fmt, case["recs"], case["opts"], case["store"]), info.get("stored", 0) >= 1,
+                 cls="%s/%s on a database holding derived features" % (call, fmt))
     ctx.mon("bins.bins contract evaluations", contracts.EVALS["bins.bins"])
 
 
@@ -582,7 +821,11 @@ MANIFEST = {
             "other strand or carry '.'), the site strand following the two neighbouring exons; the sites of every splice case are "
             "also compared with the two-base ends of the introns the real create_introns yields on the same database. Workload "
             "classes include neighbours with exactly equal attribute dictionaries holding unsorted / repeated values, numeric IDs "
-            "whose numeric and text orders disagree (numeric_sort on and off) and exons strictly nested inside an earlier exon. "
+            "whose numeric and text orders disagree (numeric_sort on and off) and exons strictly nested inside an earlier exon, "
+            "databases whose transcripts have different strands (+, -, ., ?) in every order within one call (each transcript's "
+            "sites labelled from its own strand), databases that already hold the derived introns / splice sites (stored with "
+            "update(), reopened; the second call must yield what the first did and leave the content dump unchanged), and "
+            "update_attributes with single-valued overriding / added keys and a one-valued ID. "
             "The inputs' printed form, an "
             "independent sqlite3 dump of the database and the SQL trace are compared before and after each call. "
             "Held = no executed case disagreed.",
